@@ -229,10 +229,10 @@ class Engine:
         return paths
 
     # ---------------------------------------------------------------- queries on a finished path
-    def check_valid(self, path: Path, claim, extra=()):
+    def check_valid(self, path: Path, claim, extra=(), timeout_ms=None):
         """Is `claim` valid under the path condition?  returns ('unsat'|'sat'|'unknown', model)."""
         s = z3.Solver()
-        s.set("timeout", self.timeout_ms)
+        s.set("timeout", timeout_ms or self.timeout_ms)
         for b in self.base:
             s.add(b)
         for c in path.pc:
